@@ -2,6 +2,7 @@ import Mav.Proofs.GenLink
 import Mav.Proofs.GenValues
 import Mav.Proofs.GenVersion
 import Mav.Props.C03
+import Mav.Proofs.GenFile
 /-
   C18 — the generated code has the layout the MAVLink guide assigns to the XML definition: end-to-end theorem for messages.
   Property theorems only; the chain is in Mav/Proofs/GenLink.lean (generator model on rendered definitions), Mav/Proofs/InitSound.lean
@@ -97,5 +98,34 @@ theorem version_is_the_specs (order : List XFile) : versionNum (versionOf order)
 theorem own_version_wins (root : XFile) (rest order : List XFile) (h : processed (root :: rest) = some order)
     (hv : root.version ≠ "") : versionOf order = root.version :=
   GenVersion.own_version_wins root rest order h hv
+
+/-- every last name element the go tool gives a meaning to (`test`, the GOOS and GOARCH values of go/build) is in the table the
+    generator consults — the table as regenerated from pkg/conversion/conversion.go on this run -/
+theorem reserved_table_complete (e : List Char)
+    (h : e = ['t', 'e', 's', 't'] ∨ Spec.GoTool.isOS e = true ∨ Spec.GoTool.isArch e = true) :
+    Gen.reservedFileSuffixes.contains (String.ofList e) = true := by
+  have all : ∀ s ∈ Spec.GoTool.knownOS ++ Spec.GoTool.knownArch ++ ["test"], Gen.reservedFileSuffixes.contains s = true := by decide
+  rcases h with h | h | h
+  · subst h; exact all _ (by decide)
+  · unfold Spec.GoTool.isOS at h
+    exact all _ (by simp only [List.mem_append]; exact Or.inl (Or.inl (List.contains_iff_mem.mp h)))
+  · unfold Spec.GoTool.isArch at h
+    exact all _ (by simp only [List.mem_append]; exact Or.inl (Or.inr (List.contains_iff_mem.mp h)))
+
+/-- **C18 (the generated package compiles: file names).** Whatever the name of a message or of an enum — `SELF_TEST`, `HOST_WINDOWS`,
+    `MOTOR_ARM` included — the file the generator writes it to is, for the go tool, a plain source file of the package on every
+    platform: not a test file, not restricted to an operating system or an architecture (go/build's reading of file names,
+    Mav/Spec/GoTool.lean). `name` is any text whose lower-case form has no dot (MAVLink names are `[A-Z][A-Z0-9_]*`). -/
+theorem generated_file_is_plain_source (kind name : List Char) (hk : GenFileP.Kind kind)
+    (hn : ∀ c ∈ Model.GenFile.lower name, c ≠ '.') :
+    Spec.GoTool.plainSource (Model.GenFile.goFileName kind name) = true :=
+  GenFileP.goFileNameWith_plain _ reserved_table_complete kind name hk hn
+
+/-- without the table (the generator before the repair) the theorem is false: the file of SELF_TEST is a test file, the file of
+    HOST_WINDOWS is compiled on one operating system only -/
+example : Spec.GoTool.plainSource (Model.GenFile.goFileNameWith [] "message".toList "SELF_TEST".toList) = false := by decide
+example : Spec.GoTool.plainSource (Model.GenFile.goFileNameWith [] "enum".toList "HOST_WINDOWS".toList) = false := by decide
+example : GenFileP.Kind "message".toList ∧ (∀ c ∈ Model.GenFile.lower "SELF_TEST".toList, c ≠ '.') := by
+  refine ⟨Or.inr (by decide), by decide⟩
 
 end Mav.C18
